@@ -353,3 +353,59 @@ def r17_8(ctx):
                 ok = ok and ast.unparse(c.args[0]) == i and ast.unparse(c.args[-2]) == "knots" and ast.unparse(c.args[-1]) == d
     ctx.check(ok, "eval_on_knots evaluates the basis at every knot index in order, with the full knot vector and degree", detail="enumeration of evaluation points",
               expected="for i in range(len(xi)): eval_basis_knotindex(i, knots, d) [+ sub-samples of span i]", found="; ".join(ast.unparse(c) for c in ev), fi=f)
+
+
+@rule("R17.9", min_instances=5, desc="SplineMethod: affine grid='inf' constraints keep their offset on both sides; time-dependent guesses are evaluated at the Greville abscissae in physical time")
+def r17_9(ctx):
+    P = ctx.prog
+    f = P.own_method("SplineMethod", "add_constraints_inf")
+    sc = ctx.scope(f)
+    n = ctx.norm(f)
+    lc = [c for c in walk_no_nested(f.node) if is_call_to(c, "linear_coeffs") and len(c.args) >= 2]
+    st = sc.stmt_of(lc[0]) if len(lc) == 1 else None
+    ok = st is not None and isinstance(st, ast.Assign) and isinstance(st.targets[0], ast.Tuple) and len(st.targets[0].elts) == 3
+    ctx.check(ok, "add_constraints_inf splits the constraint into A*v + b", detail="linear decomposition", expected="A, Asignal, b = linear_coeffs(canon, v, signals)", found="; ".join(ast.unparse(c) for c in lc), fi=f)
+    if not ok:
+        return
+    bname = st.targets[0].elts[2].id
+    subs = [c for c in walk_no_nested(f.node) if is_call_to(c, "subject_to") and c.args]
+    ctx.check(len(subs) == 2, "add_constraints_inf places the coefficient constraints (state/control chains; signals)", detail="placement sites", expected="2 sites", found=str(len(subs)), fi=f)
+    for c in subs:
+        e = c.args[0]
+        if is_call_to(e, "eval", "self") and len(e.args) == 2:
+            e = e.args[1]
+        ok = isinstance(e, ast.Compare) and len(e.ops) == 1 and isinstance(e.ops[0], ast.LtE) and isinstance(e.comparators[0], ast.Compare) and isinstance(e.comparators[0].ops[0], ast.LtE)
+        found = ast.unparse(e)[:120]
+        if ok:
+            L, U = e.left, e.comparators[0].comparators[0]
+            nn = Norm(None)
+            pl, pu = nn.poly(L), nn.poly(U)
+
+            # offsets: L - lb[..] and U - ub[..] must be the same polynomial, namely -b[..] with the same selector
+            lbs = [a for a in pl.atoms() if a == "lb" or a.startswith("lb[")]
+            ubs = [a for a in pu.atoms() if a == "ub" or a.startswith("ub[")]
+            ok = len(lbs) == 1 and len(ubs) == 1 and lbs[0][2:] == ubs[0][2:]
+            if ok:
+                s_ = lbs[0][2:]
+                offL, offU = pl - Poly.atom(lbs[0]), pu - Poly.atom(ubs[0])
+                ok = offL == offU == -Poly.atom(bname + s_)
+        ctx.check(ok, "affine inf constraint (line-role %s): the offset b is moved to both bounds" % ("chains" if sc.enclosing_loops(c) else "signals"), detail="bound of an affine constraint not corrected for its constant term (v+0.5<=2.5 lets v reach 2.5)",
+                  expected="lb[S]-b[S] <= A*c <= ub[S]-b[S]", found=found, fi=f, node=c, sample={"constraint": found})
+    g = P.own_method("SplineMethod", "set_initial")
+    scg = ctx.scope(g)
+    ng = Norm(scg, alias_only=True)
+    fc = [c for c in walk_no_nested(g.node) if isinstance(c, ast.Call) and isinstance(c.func, ast.Name) and c.func.id == "f" and len(c.args) == 1]
+    ok = len(fc) == 1
+    found = "; ".join(ast.unparse(c) for c in fc)
+    if ok:
+        arg = Norm(None).poly(fc[0].args[0])
+        dv = None
+        for a in arg.atoms():
+            if a.startswith("self.G["):
+                dv = a
+        ok = dv is not None and arg == Poly.atom("t0") + Poly.atom(dv) * Poly.atom("T")
+        reads = {nm: [d for d in scg.defs.get(nm, []) if d.kind == "assign"] for nm in ("t0", "T")}
+        ok = ok and all(len(v) == 1 for v in reads.values()) and Norm(None).key(reads["t0"][0].value) == Norm(None).key(ast.parse("opti.debug.value(self.t0, opti_initial)", mode="eval").body) \
+            and Norm(None).key(reads["T"][0].value) == Norm(None).key(ast.parse("opti.debug.value(self.T, opti_initial)", mode="eval").body)
+    ctx.check(ok, "SplineMethod.set_initial evaluates a time-dependent guess at t0 + Greville*T of the guessed horizon", detail="guess evaluated at normalised / unshifted times", expected="f(t0 + self.G[d]*T) with t0, T the current starting values",
+              found=found, fi=g, sample={"times": found})
